@@ -84,23 +84,24 @@ NOT_YET = {}
 
 # additions of the third round (appended to the level text)
 EXTRA = {
- "C01": " A context leg assembles sampled tuples of every form as the first item after an .org, after excursions into the data/EEPROM segments, in a continued code segment, with registers spelled through .def aliases defined in either segment, and under five full-featured devices.",
- "C02": " A deterministic leg checks that origins set from macro bodies (.org only, leading, trailing, between items, inside data/EEPROM excursions, through nested calls, back to the start of the caller's block) land where the same lines written in place land. Reservation sizes are written as literals, constant expressions or earlier .equ symbols.",
+ "C06": " The many-evaluated-nodes leg of C05 (thousands of lines, costly symbols several times per line, flash and EEPROM, .dd/.dq) is judged here byte for byte too.",
+ "C01": " A context leg assembles sampled tuples of every form as the first item after an .org, after excursions into the data/EEPROM segments, in a continued code segment, with registers spelled through .def aliases defined in either segment, and under five full-featured devices. The context leg also puts every form directly behind data in flash (.db odd, .dd, .dq, string) and rotates over ten devices including the smallest flashes.",
+ "C02": " A deterministic leg checks that origins set from macro bodies (.org only, leading, trailing, between items, inside data/EEPROM excursions, through nested calls, back to the start of the caller's block) land where the same lines written in place land. Reservation sizes are written as literals, constant expressions or earlier .equ symbols. A scale leg runs the same recipes with 20-260 blocks, up to 900 labels and images up to 40 K words per memory (counts and addresses crossing 2^8, 2^12, 2^15, 2^16).",
  "C03": " Fillers contain strings with multi-byte characters; two of six spellings let the branch come out of a macro (compound target argument, or pc-@0 computed in the body).",
  "C04": " A seeded free-form leg (800k quick / 8M thorough) and the libFuzzer target `instr` decode bytes into one instruction with 0-4 operands of any kind, values from edge / wrap-twin / wide distributions in nine spellings (decimal, hex, .equ, parenthesised, v+0, character literal, .set re-assigned inside .dseg, grouping-sensitive macro argument, operator applied in a macro body) at word addresses 0-5.",
- "C05": " Every eighth tree is additionally evaluated with its root operator in a macro body and the root's operands as arguments.",
- "C07": " The reader accepts no empty lines: the file consists of records only.",
- "C08": " Unselected branches also hold nested conditionals whose own condition is not valid (balanced), and every fourth program is additionally assembled with labels in front of about half of its conditional directives. Every fourth program is additionally assembled with everything after the prelude as the body of a macro called with one argument, unselected lines using parameters the call does not pass.",
+ "C05": " Every eighth tree is additionally evaluated with its root operator in a macro body and the root's operands as arguments. A scale leg assembles tables of thousands of sums and lines whose operands are costly symbols (chains of doublings, each far below the tool's per-expression limit): millions of evaluated nodes in one build, values known by construction.",
+ "C07": " The reader accepts no empty lines: the file consists of records only. The result handed to the writers reports varying capacities (defaults, zero, one, the exact image lengths, any row of the device table) and carries messages / RAM usage: none of that may matter. An end-to-end leg assembles programs for every device with more than 64 KiB of flash (and without a device) that place data below, across and above each 64 KiB boundary and reads back the file written from that very result.",
+ "C08": " Unselected branches also hold nested conditionals whose own condition is not valid (balanced), and every fourth program is additionally assembled with labels in front of about half of its conditional directives. Every fourth program is additionally assembled with everything after the prelude as the body of a macro called with one argument, unselected lines using parameters the call does not pass. Every third program defines a macro in front of the conditional constructs and calls it between and behind them (unselected text contains macro definitions too).",
  "C09": " Deterministic context pairs (macro form vs hand-expanded text): origins set by bodies, definitions inside taken/untaken conditionals closed with .endm/.endmacro, comment characters inside literals of a body, the moment a conditional of the body is decided (open finding), calls made while .dseg/.eseg is selected.",
- "C10": " A deterministic leg gives one name two definitions of value-carrying kinds (label in any segment, .equ, .set; both orders, other letter case): must fail.",
- "C11": " Deterministic legs: an .include inside a macro body, the same file name in two directories (the including file's directory decides). Trees with an even number of files name the main file by a path relative to the working directory; the main file may be a symbolic link. A deterministic leg opens a conditional or a macro definition in one file and closes it in the other (two open findings).",
+ "C10": " A deterministic leg gives one name two definitions of value-carrying kinds (label in any segment, .equ, .set; both orders, other letter case): must fail. The duplicate-label variant also re-defines the label as a bare line directly in front of its first definition (same segment, same address).",
+ "C11": " Deterministic legs: an .include inside a macro body, the same file name in two directories (the including file's directory decides). Trees with an even number of files name the main file by a path relative to the working directory; the main file may be a symbolic link. A deterministic leg opens a conditional or a macro definition in one file and closes it in the other (two open findings). A large-files leg (40 KB to 2.5 MB, thorough 16 MB; padding by comments, blank lines or data; large included file, large main file, .exit in the middle of a large file) compares with the pasted text.",
  "C12": " A placement grid (every device x memory x {cap, cap+1}) selects the device from a macro body (defined before or after), inside a conditional or after the content, places the last unit through a macro that starts with .org, and follows an over-full memory by an .org back to its start; .device operands that are not names, two names on one line and second selections through macros must fail; one placement leaves an origin in an empty segment, makes an excursion and continues the memory.",
- "C13": " A seeded free-form leg (800k quick / 8M thorough) and the libFuzzer target `gate` put generated encodable instructions (all operand spellings, word addresses 0-5) under every device of the table.",
- "C14": " Comment texts include banners (runs of 90-300 operator or parenthesis characters) in all three comment kinds; a radix leg writes values around 2^31..2^70 in every radix and compares with the decimal spelling in five contexts; names of labels, .equ, .set and .def tested by .ifdef/.ifndef are written in four letter cases.",
- "C15": " Fault kinds include an undefined symbol where its value cannot matter (right of a decided && / ||, times zero, inside a function); every fourth fault program is also built from a file (as main file and as included file, blank lines on top); messages issued from macro bodies must come in textual order or in the order of assembly (open finding).",
- "C16": " Worker processes run on a 2 MiB stack (the default of a Rust thread). Stress inputs include operator chains up to 10^6 terms in seven positions, symbols x operator chains, absurd sizes under seven devices x nine ways x three sizes, and one name defined by two kinds of definition in both orders (also reserved names), macro substitution blow-ups (thousands of uses x tens of thousands of characters), macro and include fan-out (2^24 expansions / includes from a few lines). The stress inputs additionally go through the unoptimised command-line binary on its default 8 MiB stack (exit status 0 or 1 within the watchdog, never a signal).",
- "C17": " A further family uses device names that are near keys of the device table (longer, shorter, other letter case), so that a lookup that iterates a hash map shows as a difference between processes.",
- "C18": " Sources may be reached through a symbolic link with another stem in the same or another directory, carry non-ASCII and non-UTF-8 names, and -o/-e may name /dev/full or one shared path (which must be reported as a failure when both images are non-empty).",
+ "C13": " A seeded free-form leg (800k quick / 8M thorough) and the libFuzzer target `gate` put generated encodable instructions (all operand spellings, word addresses 0-5) under every device of the table. The sequence leg also surrounds missing and available forms with the pragmas of the vendor's assembler (warning/error instruction, AVRPART ..., overlap, partinc) in front of .device, behind it and at the end.",
+ "C14": " Comment texts include banners (runs of 90-300 operator or parenthesis characters) in all three comment kinds; a radix leg writes values around 2^31..2^70 in every radix and compares with the decimal spelling in five contexts; names of labels, .equ, .set and .def tested by .ifdef/.ifndef are written in four letter cases. A limit leg takes lines of every size 100..140 (and around 256) around the tool's nesting limits (operator chains, parentheses, unary chains) and compares each with itself plus every kind of trailing comment, blanks, indentation, other letter case and CRLF.",
+ "C15": " Fault kinds include an undefined symbol where its value cannot matter (right of a decided && / ||, times zero, inside a function); every fourth fault program is also built from a file (as main file and as included file, blank lines on top); messages issued from macro bodies must come in textual order or in the order of assembly (open finding). Message texts carry apostrophes, comment characters, brackets, commas, a backslash and banners of 130-170 operator characters; an enumerated leg (15^3, thorough 15^4/7 programs) puts plain messages and messages from macro bodies into sections that switch segments (.dseg/.eseg/.cseg/.org) and expects ascending line numbers.",
+ "C16": " Worker processes run on a 2 MiB stack (the default of a Rust thread). Stress inputs include operator chains up to 10^6 terms in seven positions, symbols x operator chains, absurd sizes under seven devices x nine ways x three sizes, and one name defined by two kinds of definition in both orders (also reserved names), macro substitution blow-ups (thousands of uses x tens of thousands of characters), macro and include fan-out (2^24 expansions / includes from a few lines). The stress inputs additionally go through the unoptimised command-line binary on its default 8 MiB stack (exit status 0 or 1 within the watchdog, never a signal). Stress inputs also contain costly symbols used hundreds of times (lines, one line, instructions and conditions, macro calls) and deep nesting behind string / character literals that contain a backslash, the other quote or comment characters.",
+ "C17": " A further family uses device names that are near keys of the device table (longer, shorter, other letter case), so that a lookup that iterates a hash map shows as a difference between processes. Two further families: several entries of one table answering one question (3-7 aliases of one register, equal .equ values and labels of one address, flags, macros with messages) and the special name pc in places evaluated while the text is read (.org pc+n, .if pc, .byte pc, inside macro bodies).",
+ "C18": " Sources may be reached through a symbolic link with another stem in the same or another directory, carry non-ASCII and non-UTF-8 names, and -o/-e may name /dev/full or one shared path (which must be reported as a failure when both images are non-empty). -e may also name a hard link of the flash output file (one file under two names).",
 }
 
 def main():
